@@ -963,3 +963,172 @@ Proof.
   unfold scan_string_inc, scan_string. change (Some 0) with (ac_run cr (firstn 0 buf)).
   apply (scan_inc_eq cr sidx fl s fixed buf buf 0 []); [reflexivity|lia].
 Qed.
+
+(* ------------------------------------------------------------------ exactly the documented offsets, in order *)
+Lemma sorted_same_members (l1 l2 : list nat) :
+  StronglySorted lt l1 -> StronglySorted lt l2 -> (forall x, In x l1 <-> In x l2) -> l1 = l2.
+Proof.
+  revert l2. induction l1 as [|a l1 IH]; intros l2 S1 S2 H.
+  - destruct l2 as [|b l2]; [reflexivity|]. exfalso. apply (H b). now left.
+  - destruct l2 as [|b l2]; [exfalso; apply (H a); now left|].
+    inversion S1 as [|? ? S1' F1]; subst. inversion S2 as [|? ? S2' F2]; subst.
+    rewrite Forall_forall in F1, F2.
+    assert (a = b).
+    { destruct (proj1 (H a) (or_introl eq_refl)) as [->|Ha]; [reflexivity|].
+      destruct (proj2 (H b) (or_introl eq_refl)) as [->|Hb]; [reflexivity|].
+      specialize (F1 _ Hb). specialize (F2 _ Ha). lia. }
+    subst b. f_equal. apply IH; try assumption. intros x. split; intros Hx.
+    + destruct (proj1 (H x) (or_intror Hx)) as [<-|Hx']; [|exact Hx']. specialize (F1 _ Hx). lia.
+    + destruct (proj2 (H x) (or_intror Hx)) as [<-|Hx']; [|exact Hx']. specialize (F2 _ Hx). lia.
+Qed.
+
+Theorem scan_offsets_exact_proof cr sidx fl s m buf :
+  ac_cert cr = true -> all_bytes buf = true -> text_certs cr sidx fl s m = true -> complete_certs cr sidx fl s m = true ->
+  map fst (scan_string cr sidx fl s None buf) = map fst (text_matches s m buf).
+Proof.
+  intros Hc Hb Ht Hcc. apply sorted_same_members.
+  - apply scan_string_sorted_proof.
+  - apply (proj1 (text_matches_exact_proof s m buf)).
+  - intros o. rewrite !in_map_iff. split.
+    + intros [[o' [len key]] [E Hin]]. cbn [fst] in E. subst o'.
+      pose proof (scan_string_sound_proof _ _ _ _ _ _ _ _ _ Hc Hb Ht Hin) as Hocc.
+      apply (proj2 (text_matches_exact_proof s m buf)) in Hocc as [l [Hl _]]. exists (o, l). split; [reflexivity|exact Hl].
+    + intros [[o' l] [E Hin]]. cbn [fst] in E. subst o'.
+      assert (Hne : exists lk, In lk l).
+      { unfold text_matches in Hin. apply filter_In in Hin as [_ Hne]. cbn [snd] in Hne. destruct l as [|lk l]; [discriminate|]. exists lk. now left. }
+      destruct Hne as [lk Hlk].
+      assert (Hocc : In lk (occs_at s m buf o)).
+      { apply (proj2 (text_matches_exact_proof s m buf)). exists l. split; assumption. }
+      destruct (scan_string_complete_proof _ _ _ _ _ _ _ _ Hc Hb Ht Hcc Hocc) as [lk' Hx].
+      exists (o, lk'). split; [reflexivity|exact Hx].
+Qed.
+
+(* the offsets recorded for a string do not depend on the image it was compiled into (other rules, other order, reloaded) *)
+Theorem scan_offsets_image_independent_proof cr1 sidx1 fl1 cr2 sidx2 fl2 s m buf :
+  ac_cert cr1 = true -> ac_cert cr2 = true -> all_bytes buf = true ->
+  text_certs cr1 sidx1 fl1 s m = true -> complete_certs cr1 sidx1 fl1 s m = true ->
+  text_certs cr2 sidx2 fl2 s m = true -> complete_certs cr2 sidx2 fl2 s m = true ->
+  map fst (scan_string cr1 sidx1 fl1 s None buf) = map fst (scan_string cr2 sidx2 fl2 s None buf).
+Proof.
+  intros. rewrite (scan_offsets_exact_proof cr1 sidx1 fl1 s m buf), (scan_offsets_exact_proof cr2 sidx2 fl2 s m buf); auto.
+Qed.
+
+(* ------------------------------------------------------------------ shortcuts of yr_scan_verify_match (C12) *)
+(* fixed offset: a string used only as `$s at K` records exactly the matches at K *)
+Lemma verify_literal_fixed fl s bt K buf off :
+  verify_literal fl s bt (Some K) buf off = if K =? N.of_nat off then verify_literal fl s bt None buf off else None.
+Proof.
+  unfold verify_literal. destruct (length buf <=? off)%nat; [now destruct (K =? N.of_nat off)|].
+  destruct (K =? N.of_nat off); reflexivity.
+Qed.
+
+Definition at_offset (K : N) (x : nat * (N * N)) : bool := K =? N.of_nat (fst x).
+
+Lemma filter_nil {A} (p : A -> bool) l : (forall x, In x l -> p x = false) -> filter p l = [].
+Proof. induction l as [|y r IH]; intros H; [reflexivity|]. cbn [filter]. rewrite (H y (or_introl eq_refl)). apply IH. intros x Hx. apply H. now right. Qed.
+
+Lemma add_match_filter K e l : StronglySorted lt (map fst l) ->
+  filter (at_offset K) (add_match e l) = if at_offset K e then add_match e (filter (at_offset K) l) else filter (at_offset K) l.
+Proof.
+  induction l as [|y r IH]; intros Hs.
+  - cbn [add_match filter]. destruct (at_offset K e); reflexivity.
+  - cbn [map] in Hs. inversion Hs as [|? ? Hs' Hf]; subst. specialize (IH Hs').
+    cbn [add_match]. destruct (Nat.ltb_spec (fst e) (fst y)) as [Hlt|Hge].
+    + cbn [filter]. destruct (at_offset K e) eqn:Ee; [|reflexivity].
+      destruct (at_offset K y) eqn:Ey.
+      * unfold at_offset in *. apply N.eqb_eq in Ee, Ey. lia.
+      * (* everything kept from r is at K too, hence equal to e's offset: impossible after y > e ... but the list may hold K later *)
+        assert (Hr : filter (at_offset K) r = []).
+        { apply filter_nil. intros x Hx. rewrite Forall_forall in Hf. specialize (Hf (fst x) (in_map fst _ _ Hx)).
+          unfold at_offset in *. apply N.eqb_eq in Ee. apply N.eqb_neq. lia. }
+        rewrite Hr. reflexivity.
+    + destruct (Nat.eqb_spec (fst e) (fst y)) as [E|E].
+      * cbn [filter]. destruct (at_offset K e) eqn:Ee.
+        -- assert (Ey : at_offset K y = true) by (unfold at_offset in *; now rewrite <- E). rewrite Ey.
+           cbn [add_match]. rewrite E, Nat.ltb_irrefl, Nat.eqb_refl. reflexivity.
+        -- reflexivity.
+      * cbn [filter]. rewrite IH. destruct (at_offset K e) eqn:Ee; destruct (at_offset K y) eqn:Ey; try reflexivity.
+        unfold at_offset in *. apply N.eqb_eq in Ee, Ey. lia.
+Qed.
+
+Lemma insert_all_filter K evs : forall acc, StronglySorted lt (map fst acc) ->
+  insert_all (filter (at_offset K) evs) (filter (at_offset K) acc) = filter (at_offset K) (insert_all evs acc).
+Proof.
+  induction evs as [|e evs IH]; intros acc Hs; [reflexivity|].
+  cbn [insert_all fold_left filter]. fold (insert_all evs (add_match e acc)).
+  rewrite <- (IH _ (add_match_sorted e acc Hs)). rewrite (add_match_filter K e acc Hs).
+  destruct (at_offset K e); reflexivity.
+Qed.
+
+Lemma filter_flat_map {A B} (p : B -> bool) (f : A -> list B) l :
+  filter p (flat_map f l) = flat_map (fun x => filter p (f x)) l.
+Proof. induction l as [|x l IH]; [reflexivity|]. cbn [flat_map]. rewrite filter_app, IH. reflexivity. Qed.
+
+Lemma event_of_fixed cr sidx fl s K buf i mu :
+  event_of cr sidx fl s (Some K) buf i mu = filter (at_offset K) (event_of cr sidx fl s None buf i mu).
+Proof.
+  unfold event_of. destruct (am_string (pool_at cr mu) =? sidx); [|reflexivity].
+  rewrite verify_literal_fixed. set (off := (i - N.to_nat (am_backtrack (pool_at cr mu)))%nat).
+  destruct (verify_literal fl s (am_backtrack (pool_at cr mu)) None buf off) as [lk|].
+  - cbn [filter]. unfold at_offset. cbn [fst]. destruct (K =? N.of_nat off); reflexivity.
+  - destruct (K =? N.of_nat off); reflexivity.
+Qed.
+
+(* a string used only as `$s at K`: the scan records exactly the matches at K of the unrestricted scan *)
+Theorem fixed_offset_shortcut_exact_proof cr sidx fl s K buf :
+  scan_string cr sidx fl s (Some K) buf = filter (at_offset K) (scan_string cr sidx fl s None buf).
+Proof.
+  rewrite !scan_string_events. rewrite <- (insert_all_filter K _ []) by constructor. cbn [filter]. f_equal.
+  rewrite filter_flat_map. apply flat_map_ext. intros i. unfold events_at. rewrite filter_flat_map.
+  apply flat_map_ext. intros mu. apply event_of_fixed.
+Qed.
+
+(* fast mode, string used only as `$s`: verification stops after the first recorded match; the recorded match is one of
+   the unrestricted scan's offsets, and there is one iff the unrestricted scan has one *)
+Definition first_event (evs : list (nat * (N * N))) : list (nat * (N * N)) := match evs with [] => [] | e :: _ => [e] end.
+
+Lemma verify_hits_fast_events cr sidx fl s fixed buf i acc :
+  verify_hits_fast cr sidx fl s fixed buf i acc =
+  match acc with [] => first_event (events_at cr sidx fl s fixed buf i) | _ :: _ => acc end.
+Proof.
+  unfold verify_hits_fast, events_at. generalize (hits_at cr buf i) as l. intros l. revert acc.
+  induction l as [|mu l IH]; intros acc; [destruct acc; reflexivity|].
+  cbn [fold_left flat_map]. destruct acc as [|a acc].
+  - rewrite IH. unfold event_of at 2. fold (event_of cr sidx fl s fixed buf i mu).
+    unfold event_of. destruct (am_string (pool_at cr mu) =? sidx); [|reflexivity].
+    destruct (verify_literal _ _ _ _ _ _); reflexivity.
+  - rewrite IH. reflexivity.
+Qed.
+
+Lemma scan_string_fast_events cr sidx fl s fixed buf :
+  scan_string_fast cr sidx fl s fixed buf = first_event (flat_map (events_at cr sidx fl s fixed buf) (seq 0 (S (length buf)))).
+Proof.
+  unfold scan_string_fast. generalize (seq 0 (S (length buf))) as l. intros l.
+  assert (G : forall acc, fold_left (fun acc i => verify_hits_fast cr sidx fl s fixed buf i acc) l acc =
+                          match acc with [] => first_event (flat_map (events_at cr sidx fl s fixed buf) l) | _ :: _ => acc end).
+  { induction l as [|i l IH]; intros acc; [destruct acc; reflexivity|].
+    cbn [fold_left flat_map]. rewrite IH, verify_hits_fast_events. destruct acc as [|a acc]; [|reflexivity].
+    destruct (events_at cr sidx fl s fixed buf i) as [|e evs]; reflexivity. }
+  apply (G []).
+Qed.
+
+Theorem fast_mode_single_match_proof cr sidx fl s fixed buf :
+  (scan_string_fast cr sidx fl s fixed buf = [] <-> scan_string cr sidx fl s fixed buf = []) /\
+  (forall x, In x (scan_string_fast cr sidx fl s fixed buf) -> exists x', In x' (scan_string cr sidx fl s fixed buf) /\ fst x' = fst x).
+Proof.
+  rewrite scan_string_fast_events, scan_string_events.
+  set (evs := flat_map (events_at cr sidx fl s fixed buf) (seq 0 (S (length buf)))). split.
+  - destruct evs as [|e evs']; [split; reflexivity|]. split; [discriminate|].
+    intros H. exfalso. destruct (insert_all_offset (e :: evs') [] e (or_introl eq_refl)) as [x [Hx _]]. rewrite H in Hx. destruct Hx.
+  - intros x Hx. destruct evs as [|e evs']; [destruct Hx|]. destruct Hx as [<-|[]].
+    apply (insert_all_offset (e :: evs') [] e). now left.
+Qed.
+
+(* ------------------------------------------------------------------ saving and loading keeps what the scan model records *)
+From YV Require Import Proofs.ArenaProofs.
+Theorem text_scan_same_after_reload_proof (a a' : arena) sidx buf :
+  wf_arena a = true -> rules_load cfg_current (save cfg_current a) = LOk a' ->
+  scan_image_string (decode a') sidx buf = scan_image_string (decode a) sidx buf.
+Proof.
+  intros Hwf Hl. rewrite (load_save_roundtrip_proof a Hwf) in Hl. inversion Hl; subst. reflexivity.
+Qed.
